@@ -222,7 +222,9 @@ def run_reader(reader, resume, events):
             raw, parsed = next(reader)
             ident = "None" if parsed is None else parsed.identity
             dig = "-" if parsed is None else attr_digest(";".join(k + "=" + valstr(v) for k, v in sorted(pubattrs(parsed))))
-            events.append("F:%s:%s:%s" % (hx(raw), ident, dig))
+            # ... and a digest of the payload the parsed object holds (it must be the payload of this very slice)
+            pdig = "-" if parsed is None else attr_digest(bytes(parsed.payload).hex())
+            events.append("F:%s:%s:%s:%s" % (hx(raw), ident, dig, pdig))
         except StopIteration:
             events.append("STOP")
             break
@@ -558,7 +560,10 @@ def canon_model(line, tables=None):
                 if len(parts) == 4 and parts[3] != "-":
                     items = [a for a in parts[3].split(";") if a and not a.startswith("_")]
                     parts[3] = attr_digest(";".join(sorted(items, key=lambda a: (a.split("=", 1)[0], a))))
-                    t = ":".join(parts)
+                    # the model's parsed object holds, by construction, the payload of the slice
+                    t = ":".join(parts) + ":" + attr_digest(parts[1][6:-6] if parts[1] != "-" else "")
+                elif len(parts) == 4:
+                    t = ":".join(parts) + ":-"
             toks.append(t)
         line = " ".join(toks)
     if " attrs=" in line:
